@@ -33,7 +33,17 @@ def links(res):
     the file the Coq linking model (Model/Link.v, Model/Path.v) names"""
     import json
     p = harness_run(["links", res.tier, res.seed])
-    jobs = [json.loads(l) for l in p.stdout.decode("utf8").split("\n") if l]
+    all_jobs = [json.loads(l) for l in p.stdout.decode("utf8").split("\n") if l]
+    jobs = [j for j in all_jobs if j.get("kind") == "links"]
+    found = n = 0
+    for j in [x for x in all_jobs if x.get("kind") == "dangling"]:
+        o = node_jobs([{"op": "run", "id": 0, "bundle": j["bundle"], "path": j["main"], "steps": [{"create": {"$o": {}}}]}])[0]
+        n += 1
+        got = "throws: " + o["error"][:200] if o.get("error") else "".join(_texts(o["trees"][0], []))
+        if got != j["expect"]:
+            found += 1
+            res.violation("linking: dangling references named like members of Object.prototype are linked to something: %s renders %r, expected %r" % (
+                j["src"][:200], got, j["expect"]), {"src": j["src"], "rendered": got, "expected": j["expect"]})
     cmds = []
     for j in jobs:
         for nm in LINK_NAMES:
@@ -46,7 +56,6 @@ def links(res):
         for b in j["bundles"]:
             njobs.append({"op": "run", "id": len(njobs), "bundle": b, "path": j["main"], "steps": [{"create": {"$o": {}}}]})
     out = node_jobs(njobs, shards=8)
-    found = n = 0
     k = 0
     for ji, j in enumerate(jobs):
         per = len(LINK_NAMES) + 2
